@@ -308,6 +308,28 @@ def geometry_rule(ctx, rr, with_c, sink=None):
                 while t[0] in ("call", "cast") and (t[0] == "cast" or t[1] in ("Result::unwrap", "TryInto::try_into", "TryFrom::try_from", "Option::unwrap")):
                     t = t[2][0] if t[0] == "call" else t[2]
                 ok_max = t[0] == "op" and t[1] == "max" and ("int", 1) in (t[2], t[3])
+                # whatever the shape: l evaluated on small and large sizes is max(1, ceil(ceil(c * size) / 2^s) - 2)
+                numeric_ok = None
+                if "log2_seg_size" in assigns and c_t is not None:
+                    seg_t0 = assigns["log2_seg_size"][-1][0]
+                    agree, evald = True, 0
+                    for nn in (0, 1, 2, 3, 10, 100, 101, 1000, 10 ** 5, 10 ** 6, 10 ** 7, 10 ** 8):
+                        # (the number of keys and the largest shard are told apart: a formula sized by the wrong one disagrees)
+                        env0 = {"n": ("int", 4 * nn + 1 if sharded else nn), "max_shard": ("int", nn), "aux": ("int", 1 << 64)}
+                        sv0 = eval_pieces(CE, seg_t0, env0)
+                        cv0 = eval_pieces(CE, c_t, env0)
+                        if sv0 is None or cv0 is None:
+                            continue
+                        lv0 = eval_pieces(CE, rewrite_where(lt, lambda x: x[0] == "field" and x[2] == "log2_seg_size", ("int", int(sv0))), env0)
+                        if lv0 is None:
+                            continue
+                        evald += 1
+                        want0 = max(1, -(-math.ceil(cv0 * nn) // (1 << int(sv0))) - 2)
+                        if int(lv0) != want0:
+                            agree = False
+                    numeric_ok = agree if evald >= 8 else None
+                if not ok_max and numeric_ok:
+                    ok_max = True
                 rr.check(ok_max, "%s:l>=1" % nm, "%s: the number of first segments l must be clamped to at least 1 as the *last* step (`... .saturating_sub(2).max(1)`): with l = 0 the third vertex of every edge lies outside the (l + 2) segments; found %s" % (ref, tshow(t)[:200]), F.loc(node))
                 inner = None
                 if ok_max:
@@ -326,6 +348,8 @@ def geometry_rule(ctx, rr, with_c, sink=None):
                             if pr[0] == "op" and pr[1] == "*":
                                 num_ok = any(y in (size_var, ("cast", "f64", size_var)) for y in (pr[2], pr[3]))
                         ok_f = den_ok and num_ok
+                if not ok_f and numeric_ok:
+                    ok_f = True
                 rr.instances += 1
                 rr.check(ok_f, "%s:l-formula" % nm, "%s: l must be ceil(c * %s).div_ceil(1 << log2_seg_size).saturating_sub(2) (sized by the %s); found %s" % (ref, size_var[1], "largest shard" if sharded else "number of keys", tshow(inner)[:240] if inner else None), F.loc(node))
             elif "seg_size" in assigns:
